@@ -815,9 +815,10 @@ def inline_new_helpers(F):
                     if e.get("expr") is not None:
                         holder[hk] = e["expr"]
                         out.append(st)
-                    elif st.get("k") != "LetS":
-                        pass
+                    elif holder is st and st.get("k") != "LetS":
+                        pass                         # `helper();` — the statements are all there is
                     else:
+                        holder[hk] = {"k": "Tup", "es": [], "ty": "()", "sp": e.get("sp")}     # the unit value of the helper
                         out.append(st)
                 else:
                     out.append(st)
